@@ -69,7 +69,8 @@ class Oracle(object):
         raise Inconclusive("rca_singular_within_chunk_covariance")
       raise Violation("postcondition", "cls=%s,components_finite" % name,
                       "components_ contains NaN/inf")
-    nc = getattr(est, "n_components", None)
+    # the option as the caller gave it (not what the estimator may have stored since)
+    nc = h.pristine_params.get("n_components", None)
     k = L.shape[0]
     if L.shape[1] != d:
       raise Violation("postcondition", "cls=%s,components_cols" % name,
@@ -121,7 +122,8 @@ def _stale_params(h, D):
   """True when the estimator's data-dependent hyper-parameters were drawn for
   a dataset of another dimensionality (then a raising fit is expected)."""
   d = D.d
-  p = h.est.get_params(deep=False)
+  p = dict(h.est.get_params(deep=False))
+  p.update({k_: v for k_, v in h.pristine_params.items() if k_ in ("n_components", "init", "prior", "basis")})
   nc = p.get("n_components")
   if nc is not None and not (1 <= nc <= d):
     return True
